@@ -132,7 +132,7 @@ func (c *Ctx) c09WriteCopies(b BK) {
 				if b.Sharded && ev.Kind == pw.EvMapInsert && isShardData(ev) {
 					ent = pointee(ev.Value)
 				}
-				if !b.Sharded && syncMapOp(ev) == "Store" {
+				if !b.Sharded && isSyncStore(p, ev) {
 					ent = pointee(ev.Args[1])
 				}
 				if ent == nil {
